@@ -133,6 +133,7 @@ CHECKS["C03"] = {
     "parts": [
         {"part": "operations", "pkg": ROOT, "test": "TestVerif_C03_Operations", "quick": 5000, "thorough": 40000},
         {"part": "fullrt", "pkg": "./fullrt/", "test": "TestVerif_C03_FullRT", "quick": 1500, "thorough": 20000},
+        {"part": "dual", "pkg": "./dual/", "test": "TestVerif_C03_Dual", "quick": 1200, "thorough": 16000},
     ],
 }
 
